@@ -136,6 +136,7 @@ type Anchors struct {
 	BodyTail                           []*FuncBody // functions of the package the body closure hands its command loop to
 	LoopFn                             *FuncBody   // the function that contains the cmds loop: the body closure, or its tail
 	semParams                          map[*types.Var]bool
+	SlotDirect                         bool // the slot API is a pair of plain functions (acquire(); defer release()) instead of functions that return the undo closure
 	StatusOnError, Mkdir               *FuncBody
 	Acquire, Release                   *FuncBody
 	HandleDynamicVar                   *FuncBody
@@ -313,6 +314,31 @@ func ResolveAnchors(p *Prog) *Anchors {
 			a.Acquire = fb
 		case ops[0] == "recv" && a.Release == nil:
 			a.Release = fb
+		}
+	}
+	if a.Acquire == nil && a.Release == nil {
+		// the direct form: two functions without result, one whose only semaphore operation is a send (take a slot), one
+		// whose only operation is a receive (give it back); every taker defers the giver and the other way round
+		for _, fb := range p.BodiesIn(PkgTask) {
+			if fb.Decl == nil || (fb.Type.Results != nil && len(fb.Type.Results.List) > 0) {
+				continue
+			}
+			// (only the function that operates on the channel itself: its own body, no helpers)
+			ops := a.semOps(fb.Body, fb.Info(), 0)
+			if len(ops) != 1 {
+				continue
+			}
+			switch {
+			case ops[0] == "send" && a.Acquire == nil:
+				a.Acquire = fb
+			case ops[0] == "recv" && a.Release == nil:
+				a.Release = fb
+			}
+		}
+		if a.Acquire != nil && a.Release != nil {
+			a.SlotDirect = true
+		} else {
+			a.Acquire, a.Release = nil, nil
 		}
 	}
 	if a.DepRunner == nil && a.RunTask != nil {
@@ -883,4 +909,16 @@ func (a *Anchors) isSem(info *types.Info, e ast.Expr) bool {
 		}
 	}
 	return a.semParams[v]
+}
+
+// slotUndoDeferred: the must-fact that says "the undo of slot operation l (acquire / release) is deferred": the closure the
+// operation returned, or — in the direct form — a deferred call of the opposite operation.
+func (a *Anchors) slotUndoDeferred(l string) string {
+	if !a.SlotDirect {
+		return "deferred:ret(" + l + ")"
+	}
+	if l == "acquire" {
+		return "deferred:release"
+	}
+	return "deferred:acquire"
 }
